@@ -36,11 +36,24 @@ def define(name, where, bind="GLOBAL", vis="DEFAULT", typ="FUNC", size=None):
     return "\n".join(lines) + "\n"
 
 
+_locks = {}
+_locks_guard = threading.Lock()
+
+
+def _lock_for(path):
+    """One lock per target file: a cached input is built exactly once and never replaced afterwards
+    (a linker may already be reading it)."""
+    with _locks_guard:
+        return _locks.setdefault(str(path), threading.Lock())
+
+
 def cached_obj(d, text, stem="o"):
     """Assemble `text` once per distinct content inside directory d."""
     h = hashlib.sha1(text.encode()).hexdigest()[:12]
     o = Path(d) / f"{stem}_{h}.o"
-    if not o.exists():
+    with _lock_for(o):
+        if o.exists():
+            return o
         # atomic (several threads may want the same object): build under a private name, then rename
         tag = f"{os.getpid()}_{threading.get_ident()}"
         s = Path(d) / f"{stem}_{h}.{tag}.s"
@@ -55,35 +68,41 @@ def cached_obj(d, text, stem="o"):
 def shared_lib(d, filename, soname, text, extra=None):
     """A helper shared library linked by GNU ld."""
     so = Path(d) / filename
-    if so.exists():
+    with _lock_for(so):
+        if so.exists():
+            return so
+        o = cached_obj(d, text, stem=Path(filename).stem)
+        tmp = Path(d) / f"{filename}.{os.getpid()}_{threading.get_ident()}.tmp"
+        asm.gnu_ld(["-shared", "-soname", soname, "-o", tmp, o] + (extra or []), check=True)
+        os.replace(tmp, so)
         return so
-    o = cached_obj(d, text, stem=Path(filename).stem)
-    tmp = Path(d) / f"{filename}.{os.getpid()}_{threading.get_ident()}.tmp"
-    asm.gnu_ld(["-shared", "-soname", soname, "-o", tmp, o] + (extra or []), check=True)
-    os.replace(tmp, so)
-    return so
 
 
 def cached_archive(d, member, stem="lib"):
     a = Path(d) / f"{stem}_{Path(member).stem}.a"
-    if not a.exists():
-        tmp = Path(d) / f"{a.name}.{os.getpid()}_{threading.get_ident()}.tmp"
-        asm.archive(tmp, [member])
-        os.replace(tmp, a)
+    with _lock_for(a):
+        if not a.exists():
+            tmp = Path(d) / f"{a.name}.{os.getpid()}_{threading.get_ident()}.tmp"
+            asm.archive(tmp, [member])
+            os.replace(tmp, a)
     return a
 
 
 LINKERS = ("wild", "ld", "lld")
 
 
-def link(linker, args, timeout=30):
+def link(linker, args, timeout=60):
+    """One link. The reference linkers are retried once on a timeout (the machine may be heavily
+    loaded); a timeout of wild is returned as it is (it is data)."""
     if linker == "wild":
         return run_wild(args, timeout=timeout)
-    if linker == "ld":
-        return asm.gnu_ld(args, timeout=timeout)
-    if linker == "lld":
-        return asm.lld(args, timeout=timeout)
-    raise ToolError(linker)
+    fn = {"ld": asm.gnu_ld, "lld": asm.lld}.get(linker)
+    if fn is None:
+        raise ToolError(linker)
+    r = fn(args, timeout=timeout)
+    if r.timed_out:
+        r = fn(args, timeout=4 * timeout)
+    return r
 
 
 def run_jobs(fn, jobs, workers=8):
